@@ -1,6 +1,7 @@
 package main
 
 import (
+	"time"
 	"fmt"
 	"reflect"
 	"strconv"
@@ -295,7 +296,14 @@ func c16ModelVM(c c17Compiled, vm c16VM, in map[string]any, r *Result, vmModel *
 
 // c16ModelVMOne: one model against the real VM; true when compared.
 func c16ModelVMOne(c c17Compiled, vm c16VM, in map[string]any, r *Result, vmModel *Model, name, tag string) bool {
-	ans, err := vmModel.Ask("(run " + astProgram(c.prog) + ")")
+	// time-limited: on very large programs (or bytecode shapes the model was not built for) the extracted VM may not
+	// answer for minutes; such a case is counted as skipped (DESIGN 0.4: model resource limits), never compared, and
+	// the run goes on - an unlimited wait here once turned a seeded compiler change into "the harness did not finish"
+	ans, err := vmModel.AskT("(run "+astProgram(c.prog)+")", 60*time.Second)
+	if err == ErrModelTimeout {
+		r.Dist("skipped:model-resource:" + tag + "-no-answer-in-60s")
+		return false
+	}
 	if err != nil {
 		r.Violate(Violation{Kind: "correspondence", Key: "model-crash", Detail: name + ": " + err.Error(), Input: in})
 		return false
